@@ -300,6 +300,21 @@ def replay_iet(inputs, label, n, A, cmode, amode, b, enc="float"):
     return False, "not reproduced"
 
 
+def validate_saw(inputs, n, A, cmode, amode, b, napp, perf, enc="float"):
+    s = real_gen(inputs, n, A, cmode, amode)
+    s.A_perf = inputs.get("A_perf")
+    env = pl.Env()
+    _saw(env, s, b, napp, perf, table=inputs.get("__clf__"), timeout=5, enc=enc)
+    return sorted(env.violated)
+
+
+def validate_iet(inputs, n, A, cmode, amode, b, enc="float"):
+    s = real_gen(inputs, n, A, cmode, amode)
+    env = pl.Env()
+    _iet(env, s, b, table=inputs.get("__clf__"), enc=enc)
+    return sorted(env.violated)
+
+
 # ----------------------------------------------------------------
 def _cfg_saw(tier):
     out = []
@@ -345,6 +360,8 @@ HARNESSES = [
     Harness("single_annotator_wrapper", sym_saw, replay_saw, _cfg_saw, UNITS[:6] + UNITS[8:], required_witnesses=("ran",), max_paths=20000),
     Harness("interval_estimation_threshold", sym_iet, replay_iet, _cfg_iet, UNITS[:2] + UNITS[6:], required_witnesses=("ran",)),
 ]
+HARNESSES[0].validate = validate_saw
+HARNESSES[1].validate = validate_iet
 BOUNDS = dict(quick="n = 2 samples x A = 2 annotators, every label-missing pattern, all 3x3 candidates x annotators forms (None / every "
                     "index subset / 2 feature rows; None / every annotator subset / every boolean availability matrix), batch sizes "
                     "1-2, n_annotators_per_sample 1-2, A_perf None or symbolic vector; 2 s wall-clock bound per path for termination",
